@@ -38,7 +38,14 @@ func SerializeKey(key jwk.Key) ([]byte, error) {
 	switch r := rawKey.(type) {
 	case []byte: // Symmetric keys
 		return r, nil
-	case *rsa.PrivateKey, *ecdsa.PrivateKey, ed25519.PrivateKey: // Private keys: marshal as PKCS#8
+	case *rsa.PrivateKey: // RSA private keys: marshal as PKCS#8
+		// Marshalling precomputes the CRT values and panics (division by zero) if a prime factor is 1
+		err = r.Validate()
+		if err != nil {
+			return nil, fmt.Errorf("invalid RSA private key: %w", err)
+		}
+		return x509.MarshalPKCS8PrivateKey(r)
+	case *ecdsa.PrivateKey, ed25519.PrivateKey: // Other private keys: marshal as PKCS#8
 		return x509.MarshalPKCS8PrivateKey(r)
 	case *rsa.PublicKey, *ecdsa.PublicKey, ed25519.PublicKey: // Public keys: marshal as PKIX
 		return x509.MarshalPKIXPublicKey(r)
